@@ -63,10 +63,28 @@ theorem tsRaddBody_eq : Gen.Time.tsRaddBody =
     "result_value = super().__radd__(other)\nif result_value == NotImplemented:\n    return NotImplemented\nreturn TimestampType(result_value)" := rfl
 theorem tsSubBody_eq : Gen.Time.tsSubBody =
     "result_value = super().__sub__(other)\nif result_value == NotImplemented:\n    return cast(DurationType, result_value)\nif isinstance(result_value, datetime.timedelta):\n    return DurationType(result_value)\nreturn TimestampType(result_value)" := rfl
-theorem tzOffsetParseBody_eq : Gen.Time.tzOffsetParseBody =
-    "tz_pat = re.compile('^([+-]?)(\\\\d\\\\d?):(\\\\d\\\\d)$')\ntz_match = tz_pat.match(tz_name)\nif not tz_match:\n    raise ValueError(f'Unparsable timezone: {tz_name!r}')\nsign, hh, mm = tz_match.groups()\noffset_min = (int(hh) * 60 + int(mm)) * (-1 if sign == '-' else +1)\noffset = datetime.timedelta(seconds=offset_min * 60)\ntz = datetime.timezone(offset)\nreturn tz" := rfl
-theorem tzParseBody_eq : Gen.Time.tzParseBody =
-    "if tz_name:\n    tz = TimestampType.tz_name_lookup(tz_name)\n    return tz\nelse:\n    return timezone('UTC')" := rfl
+/-
+  Round 4: `tz_offset_parse` and `tz_parse` are no longer pinned as text.  `py/verif/translate/c11_tz.py` executes
+  their bodies symbolically (every statement and expression must be understood) into Lean functions of the facts
+  the result depends on; the theorems below hold for ALL values of those facts, so a guard clause instead of
+  if/else, an inlined temporary, the regex hoisted into a class constant or the sign applied by an `if` instead
+  of a factor are all accepted, while a changed pattern, sign rule, hour/minute weight, exception class or
+  empty-zone branch is not.
+-/
+/-- the pattern `Cel.Time.tzOffsetParse` was written for (matched with `.match` against the zone text) -/
+theorem tzOffsetPat_eq : Gen.Time.tzOffsetPat = "^([+-]?)(\\d\\d?):(\\d\\d)$" := rfl
+/-- no match: ValueError; otherwise `datetime.timezone(timedelta(seconds = ±(hh·60 + mm)·60))`, negative exactly
+when the sign group is `-` (the model's `sign * (hh*60+mm) * 60000000` µs; the `< 24 h` check is `datetime.timezone`'s) -/
+theorem tzOffsetParseF_eq (neg : Bool) (hh mm : Int) :
+    Gen.Time.tzOffsetParseF false neg hh mm = .raise "ValueError" ∧
+    Gen.Time.tzOffsetParseF true neg hh mm = .tz ((if neg then -1 else 1) * (hh * 60 + mm) * 60) := by
+  constructor
+  · cases neg <;> simp [Gen.Time.tzOffsetParseF]
+  · cases neg <;> simp [Gen.Time.tzOffsetParseF] <;> omega
+/-- `tz_parse`: a false zone argument (`None`, `''`) is pendulum's UTC, anything else goes to `tz_name_lookup` -/
+theorem tzParseF_eq (truthy : Bool) :
+    Gen.Time.tzParseF truthy = if truthy then .lookup else .utc := by
+  cases truthy <;> simp [Gen.Time.tzParseF]
 
 /-- meaning of the accessor expression language on the civil fields of `self.astimezone(new_tz)` -/
 def evalA (c : Civil) : AExp → Option Int
